@@ -1,5 +1,54 @@
-"""first-order part of C06 (filled in when the fol stream exists)"""
+"""first-order part of C06: infer() returns, and leaves a state in which no pass and no node-level call changes
+anything; a second infer() reports zero and takes one sweep."""
+import streams
+from checks._folcommon import tabs_of, is_inference, amount_of
+
+MAXS = 60
+
+
+def oracle(rec):
+    ts = [t for t in tabs_of(rec, rec.get("safe_upto")) if is_inference(t[1])]
+    if not ts:
+        return None
+    k, op, out, fix = ts[0]
+    steps = int(out.split()[1])
+    if steps >= MAXS:
+        return {"op": op, "problem": f"infer() did not return within {MAXS} sweeps", "returned": out}
+    for k2, op2, out2, tabs in ts[1:]:
+        if tabs != fix:
+            return {"op": op2, "problem": "a step after infer() changed a table: not a fixpoint", "reported": amount_of(out2)}
+        if amount_of(out2) != "0":
+            return {"op": op2, "problem": "a step after infer() reported a non-zero amount", "reported": amount_of(out2)}
+        if op2.startswith("finfer") and out2.split()[1] != "1":
+            return {"op": op2, "problem": "second infer() took more than one sweep", "returned": out2}
+    if rec["meta"]["errors"]:
+        return {"exception": rec["meta"]["errors"]}
+    return None
 
 
 def run(rep, tier, seed):
-    return
+    n = 100 if tier == "quick" else 2000
+    hist = {}
+    for name, quant in (("fol-qf", False), ("quant", True)):
+        progs = [streams.gen_fol_program(seed + 23, k, quant=quant, n_ops=(0, 0)) for k in range(n)]
+        for p in progs:
+            conn = [x["id"] for x in p["kb"]["nodes"]]
+            tail = [("passup",), ("passdown",)]
+            for i in conn:
+                tail += [("up", i), ("down", i, None)]
+            p["ops"] = [("infer", MAXS)] + tail + [("infer", MAXS)]
+        recs, first = streams.run_fol_stream(rep, name, progs, {"tables", "reported"})
+        for r in recs:
+            if "crash" in r:
+                continue
+            inf = next((o for l, o in zip(r["lines"], r["impl"]) if l.startswith("finfer")), "n 0 0")
+            steps = int(inf.split()[1])
+            hist[steps] = hist.get(steps, 0) + 1
+            rep.count_case(streams.canon(r["prog"]), steps >= 3)
+            bad = oracle(r)
+            if bad:
+                rep.violation("fol-not-a-fixpoint", bad, {"program": streams.ser(r["prog"]), "failure": bad,
+                                                          "protocol": r["lines"], "impl": r["impl"]})
+        if first is not None and not rep.violations:
+            rep.extra.setdefault("first_disagreement_" + name, {"program": streams.ser(first["prog"]), "at": first["disagreements"][:3]})
+    rep.extra["fol_sweeps_to_converge_histogram"] = {str(k): v for k, v in sorted(hist.items())}
